@@ -85,6 +85,8 @@ def src_limits():
     out.append(("empty-header-cell", "Feature: f\n  Scenario Outline: <>\n    Given <> and <a>\n      | <> |\n    Examples:\n      |  | a |\n      | v | w |\n", "en"))
     out.append(("background-table", "Feature: f\n  Background: b\n    Given x\n      | a | b |\n      | c | d |\n      | e | f |\n    And y\n      \"\"\"\n      d\n      \"\"\"\n  Scenario: s\n    Then z\n"
                 "  Rule: r\n    Background:\n      Given q\n        | g |\n        | h |\n    Scenario: t\n      Then u\n", "en"))
+    # example values that mention other columns' placeholders (the order in which columns are applied shows)
+    out.append(("column-cross-reference", "Feature: f\n  Scenario Outline: <a> <b> <c>\n    Given <a>-<b>-<c>\n      | <c><b><a> |\n    Examples:\n      | a | b | c |\n      | <b> | <c> | <a> |\n      | <c><c> | <a> | x |\n", "en"))
     # text that changes under Unicode normalisation (combining marks, compatibility characters) in names, steps, cells, headers, tags, doc strings
     out.append(("nfc-unstable", "@e\u0301 @\u212b\nFeature: e\u0301 \u2126\n  de\u0301sc\n  Scenario Outline: <e\u0301> <\u00e9>\n    Given <e\u0301> a\u030a\u0323 <\u00e9>\n      | e\u0301 | x | \u0e01\u0e33 | y |\n"
                 "      \n    When d\n      \"\"\" e\u0301\n      <e\u0301> <\u00e9>\n      \"\"\"\n    Examples:\n      | e\u0301 | b |\n      | 1 | 2 |\n", "en"))
